@@ -175,6 +175,25 @@ fn mesh2d_case(xn: &[f64], yn: &[f64], nvars: usize, pat: usize, exact: bool) ->
             }
         }
     }
+    // output_var: one line "x y value" per node, y-major, values to the printed precision (dyadic data print exactly at 6 digits)
+    if nx * ny <= 12 {
+        let path = format!("/verif/target/run/mesh2d_{}_{}_{}_{}.dat", std::process::id(), mc::worker_index(), nx, ny);
+        let _ = std::fs::create_dir_all("/verif/target/run");
+        for v in 0..nvars {
+            m.output_var(&path, v, 6);
+            let txt = std::fs::read_to_string(&path).map_err(|e| format!("output_var file unreadable: {}", e))?;
+            let nums: Vec<f64> = txt.split_whitespace().map(|t| t.parse::<f64>().map_err(|e| format!("output_var token {:?}: {}", t, e))).collect::<Result<_, _>>()?;
+            ensure!(nums.len() == 3 * nx * ny, "output_var wrote {} numbers for a {}x{} mesh", nums.len(), nx, ny);
+            let mut k = 0;
+            for j in 0..ny {
+                for i in 0..nx {
+                    ensure!((nums[k] - xn[i]).abs() <= 1e-6 && (nums[k + 1] - yn[j]).abs() <= 1e-6 && (nums[k + 2] - v2(i, j, v)).abs() <= 1e-6, "output_var line {} is ({}, {}, {}) expected ({}, {}, {})", k / 3, nums[k], nums[k + 1], nums[k + 2], xn[i], yn[j], v2(i, j, v));
+                    k += 3;
+                }
+            }
+        }
+        let _ = std::fs::remove_file(&path);
+    }
     let same = |got: f64, want: f64| if exact { got == want } else { (got - want).abs() <= 16.0 * f64::EPSILON * want.abs().max(1.0) };
     // quadrature = sum of cell contributions
     for v in 0..nvars {
